@@ -189,12 +189,14 @@ def c14_sched(job, drv):
             key = job["keys"][i]
             if i in unfinished:
                 o = 2000
-            elif r["exc"] or not out:
+            elif r["exc"] or (not out and any("EXCEPTION" in x for x in r["log"])):
                 o = 1000
             elif out == refs_new[key]:
                 o = 0
             elif refs_old and out == refs_old.get(key):
                 o = 5
+            elif not out:
+                o = 1000
             else:
                 o = 99
             obs.append(o)
